@@ -380,14 +380,20 @@ static struct rnode *rnode_atom(char **pat)
 		rnode->mincnt = 0;
 		rnode->maxcnt = 0;
 		++*pat;
-		while (isdigit((unsigned char) **pat))
+		while (isdigit((unsigned char) **pat)) {
 			rnode->mincnt = rnode->mincnt * 10 + *(*pat)++ - '0';
+			if (rnode->mincnt > NREPS)
+				rnode->mincnt = NREPS + 1;
+		}
 		if (**pat == ',') {
 			(*pat)++;
 			if ((*pat)[0] == '}')
 				rnode->maxcnt = -1;
-			while (isdigit((unsigned char) **pat))
+			while (isdigit((unsigned char) **pat)) {
 				rnode->maxcnt = rnode->maxcnt * 10 + *(*pat)++ - '0';
+				if (rnode->maxcnt > NREPS)
+					rnode->maxcnt = NREPS + 1;
+			}
 		} else {
 			rnode->maxcnt = rnode->mincnt;
 		}
@@ -396,7 +402,8 @@ static struct rnode *rnode_atom(char **pat)
 			return NULL;
 		}
 		++*pat;
-		if (rnode->mincnt > NREPS || rnode->maxcnt > NREPS) {
+		if (rnode->mincnt > NREPS || rnode->maxcnt > NREPS ||
+				(rnode->maxcnt >= 0 && rnode->mincnt > rnode->maxcnt)) {
 			rnode_free(rnode);
 			return NULL;
 		}
